@@ -102,10 +102,13 @@ def frac_to_dec(q, nfd=None):
     q = Fraction(q)
     for n in (range(0, 19) if nfd is None else [nfd]):
         c = q * 10 ** n
-        if c.denominator == 1:
+        if c.denominator == 1 and abs(c) < 2 ** 127:
             return int(c), n
-    c = q * 10 ** 18
-    return int(round(c)), 18
+    for n in range(18, -1, -1):
+        c = int(round(q * 10 ** n))
+        if abs(c) < 2 ** 127:
+            return c, n
+    return (2 ** 127 - 1 if q > 0 else -(2 ** 127) + 1), 0
 
 
 def amount_value(be, s):
